@@ -19,6 +19,8 @@ DECIDED = ('(a) _body_read compares the running size with max_body_size inside t
            'length above the threshold before reading and reads threshold+1 bytes when the length is unknown so that the '
            'following size test can fire; (f) both readers request at most one buffer per read (C04.a / C05.a), hence at '
            'most limit + one buffer bytes are requested before the 413.')
+DECIDED_MORE = ('Also: count-down form of the limit with an `is not None` guard; the limit argument of _body_read is the configured one on every path; the spill pass still feeds the multipart scanner.')
+DECIDED = DECIDED + ' ' + DECIDED_MORE
 NOT_DECIDED = ('framing overhead of pathological chunking (1-byte chunks); memory used by the interpreter for the objects '
                'themselves.')
 ASSUMPTIONS = ['wsgi.input.read(n) returns at most n bytes', 'TemporaryFile keeps its content on disk']
